@@ -231,3 +231,118 @@ Section ArmSim.
         cbn [abs_o]. destruct Hidle as (-> & _). rewrite Eabs. reflexivity.
   Qed.
 End ArmSim.
+
+Section ArmGood.
+  Variables p0 p1 : byte.
+  Variable largest : N.
+  Hypothesis Hlargest : largest <= cap.
+
+  Definition fits (m : list byte) : bool := len m <=? largest.
+  Notation wfx := (wf_items p0 p1 fits).
+  Notation goodx := (good p0 p1 fits).
+
+  Lemma repr_abs_idle sa got rest : cleanb sa = true -> repr p0 p1 (abs sa) got rest -> got = [] ->
+    cnt sa = 0 /\ areq sa = 0 /\ rest = [].
+  Proof.
+    intros Hc [Hbuf Hcases] ->. apply cleanb_iff in Hc. destruct Hc as (_ & Hcc & Hlen).
+    cbn [abs buf required] in *.
+    destruct Hcases as [(_ & Hr & Hq) | (Hg & _)]; [| congruence].
+    assert (len (take (cnt sa) (arr sa)) = cnt sa) as Hl by (apply len_take; lia).
+    rewrite Hbuf, len_nil in Hl. auto.
+  Qed.
+
+  Lemma on_data_arm_good : forall fuel data sa got rest items tail fut,
+    (length data < fuel)%nat -> len data + 65536 <= 4294967296 ->
+    cleanb sa = true -> repr p0 p1 (abs sa) got rest -> wfx items -> filler_ok p0 tail = true ->
+    (got <> [] -> len (got ++ rest) <= largest) ->
+    (0 < cnt sa -> len data + cnt sa <= cap) ->
+    rest ++ stream_of items tail = data ++ fut ->
+    goodx (abs_o (on_data_arm p0 p1 largest fuel sa data)) (cur_msgs got rest ++ map snd items) fut.
+  Proof.
+    induction fuel as [| f IH]; intros data sa got rest items tail fut Hfuel H32 Hclean Hr Hi Ht Hcur Hchunk Hs; [lia |].
+    assert (forall sr, idle sr -> rec_ok p0 p1 fits (fun _ d => abs_o (on_data_arm p0 p1 largest f sr d)) (length data)) as Hrec.
+    { intros sr (Hcs & Hc0 & Hr0) d its tl ft Hl H32' Hi' Ht' Hs'.
+      apply (IH d sr [] [] its tl ft); auto; try lia.
+      - unfold len in *. lia.
+      - rewrite (abs_idle sr) by (repeat split; auto). apply repr_idle.
+      - congruence. }
+    cbn [on_data_arm]. cbv zeta.
+    destruct data as [| x data'] eqn:Edata.
+    - rewrite len_nil. change (0 =? 0) with true. cbv iota. cbn [app] in Hs. subst fut.
+      cbn [abs_o]. rewrite Hclean. apply good_stay; assumption.
+    - rewrite <- Edata in *. assert (data <> []) as Hd by (rewrite Edata; discriminate).
+      pose proof (len_pos data Hd) as Hdpos.
+      assert (len data =? 0 = false) as Hz by (apply N.eqb_neq; lia). rewrite Hz.
+      pose proof Hclean as Hclean'. apply cleanb_iff in Hclean'. destruct Hclean' as (Hexc & Hcc & Hlen).
+      destruct got as [| g0 got'] eqn:Egot.
+      + (* nothing pending *)
+        destruct (repr_abs_idle sa [] rest Hclean Hr eq_refl) as (Hc0 & Hr0 & ->).
+        rewrite Hc0. change (0 =? 0) with true. cbv iota. cbn [app cur_msgs] in *.
+        assert (abs sa = reset) as Eabs by (unfold abs; rewrite Hc0, Hr0; reflexivity).
+        destruct (idle_split p0 p1 fits items tail data fut Hi Ht Hs)
+          as [(Hfd & items' & tail' & Hi' & Ht' & Hfut & Hmap) | (fl & m & items' & d' & Hit & Hdd & Hd' & Hs')].
+        * assert ((if len data =? 1
+                   then if Ascii.eqb (hd0 data) p0 then handle_arm p0 p1 largest (on_data_arm p0 p1 largest f) sa data else ADone sa []
+                   else match find_preamble p0 p1 data with
+                        | None => ADone sa []
+                        | Some i => handle_arm p0 p1 largest (on_data_arm p0 p1 largest f) sa (drop i data)
+                        end) = ADone sa []) as E.
+          { destruct (len data =? 1).
+            - rewrite (filler_hd p0 data Hfd Hd). reflexivity.
+            - rewrite (fp_none p0 p1 data Hfd). reflexivity. }
+          rewrite E. cbn [abs_o]. rewrite Hclean, Eabs, <- Hmap. subst fut.
+          apply (good_stay p0 p1 fits reset [] [] items' tail'); auto using repr_idle.
+        * subst items. cbn [map snd].
+          unfold wf_items in Hi. cbn [forallb] in Hi.
+          apply andb_true_iff in Hi. destruct Hi as [Hfm Hi]. apply andb_true_iff in Hfm. destruct Hfm as [Hfm Hex].
+          unfold wf_item in Hfm. cbn [fst snd] in Hfm, Hex.
+          apply andb_true_iff in Hfm. destruct Hfm as [Hf Hm].
+          destruct (wf_msg_inv p0 p1 m Hm) as (Hm8 & Hm32 & [t Hmt] & Hps).
+          assert (d' = [p0] \/ exists t', d' = p0 :: p1 :: t') as Hshape.
+          { rewrite Hmt in Hs'. destruct d' as [| a [| b d'']]; [congruence | |].
+            - cbn [app] in Hs'. injection Hs' as Ha _. left. congruence.
+            - cbn [app] in Hs'. injection Hs' as Ha Hb _. right. exists d''. congruence. }
+          assert (len d' <= len data) as Hld' by (rewrite Hdd, len_app; lia).
+          assert ((if len data =? 1
+                   then if Ascii.eqb (hd0 data) p0 then handle_arm p0 p1 largest (on_data_arm p0 p1 largest f) sa data else ADone sa []
+                   else match find_preamble p0 p1 data with
+                        | None => ADone sa []
+                        | Some i => handle_arm p0 p1 largest (on_data_arm p0 p1 largest f) sa (drop i data)
+                        end) = handle_arm p0 p1 largest (on_data_arm p0 p1 largest f) sa d') as E.
+          { destruct (N.eqb_spec (len data) 1) as [H1 | H1].
+            - assert (fl = []) as Hfl.
+              { apply len_zero. rewrite Hdd, len_app in H1. apply len_pos in Hd'. lia. }
+              subst fl. cbn [app] in Hdd. subst d'.
+              destruct Hshape as [-> | [t' ->]]; cbn [hd0 hd]; rewrite Ascii.eqb_refl; reflexivity.
+            - unfold find_preamble. rewrite Hdd, (fp_filler p0 p1 fl 0 d' Hf), (fp_hit p0 p1 _ d' Hshape).
+              cbn [N.add]. rewrite drop_app_exact. reflexivity. }
+          rewrite E.
+          destruct (handle_arm_sim p0 p1 largest Hlargest (on_data_arm p0 p1 largest f) sa d') as (sr & Hidle & ->); auto; try lia.
+          -- rewrite Hc0. unfold take at 1 2. cbn [N.to_nat firstn app]. intros _ H8 Hov.
+             rewrite (payload_size_prefix d' fut m (stream_of items' tail)); auto; try lia.
+             apply N.leb_le in Hex. lia.
+          -- rewrite Eabs.
+             apply (handle_start p0 p1 fits _ d' m items' tail fut); auto; try lia.
+             apply (rec_ok_le p0 p1 fits _ _ _ (Hrec sr Hidle)). rewrite Hdd, app_length. lia.
+      + (* a message is pending *)
+        rewrite <- Egot in *. assert (got <> []) as Hg by (rewrite Egot; discriminate).
+        destruct Hr as [Hbuf [(Hg' & _) | (_ & Hrest & Hm & Hreq)]]; [congruence |].
+        cbn [abs buf required] in Hbuf, Hreq.
+        assert (cnt sa = len got) as Hcg.
+        { rewrite <- Hbuf. symmetry. apply len_take. lia. }
+        pose proof (len_pos got Hg) as Hgpos. pose proof (len_pos rest Hrest) as Hrpos.
+        assert (cnt sa =? 0 = false) as Hcz by (apply N.eqb_neq; lia). rewrite Hcz.
+        rewrite (cur_msgs_cons got rest Hg). cbn [app].
+        destruct (wf_msg_inv p0 p1 _ Hm) as (Hm8 & Hm32 & [t Hmt] & Hps).
+        specialize (Hcur Hg). rewrite len_app in Hm8, Hm32, Hcur.
+        destruct (handle_arm_sim p0 p1 largest Hlargest (on_data_arm p0 p1 largest f) sa data) as (sr & Hidle & ->); auto; try lia.
+        * intros Hr0. rewrite Hr0 in Hreq. destruct (N.ltb_spec (len got) 8); lia.
+        * intros Hr0. destruct (N.ltb_spec (len got) 8); lia.
+        * rewrite Hbuf. intros Hr0 H8 Hov.
+          rewrite (payload_size_prefix (got ++ data) fut (got ++ rest) (stream_of items tail)); try (rewrite len_app; lia).
+          -- rewrite Hps, len_app. lia.
+          -- rewrite <- !app_assoc. f_equal. symmetry. exact Hs.
+        * apply (handle_mid p0 p1 fits _ (abs sa) got rest data items tail fut (Hrec sr Hidle) Hd); auto; try lia.
+          split; [exact Hbuf | right]. cbn [abs required]. auto.
+  Qed.
+End ArmGood.
